@@ -137,7 +137,7 @@ func (e *kvElection) checkKeyAndReelect(ctx context.Context) {
 	}
 
 	currentLeaderID := e.LeaderID()
-	if currentLeaderID != "" && currentLeaderID != newLeaderID {
+	if currentLeaderID != newLeaderID {
 		log := e.getLogger()
 		log.Info("leader_changed_periodic_check",
 			append(e.logWithContext(ctx),
